@@ -167,7 +167,13 @@ impl Stream for RtrListener {
                     this.server_metrics,
                 ) {
                     Ok(stream) => Poll::Ready(Some(Ok(stream))),
-                    Err(_) => Poll::Pending,
+                    Err(_) => {
+                        // poll_accept was ready and thus has not registered
+                        // our waker. Ask to be polled again so we get to
+                        // the next connection.
+                        ctx.waker().wake_by_ref();
+                        Poll::Pending
+                    }
                 }
             }
             Poll::Ready(Err(err)) => {
@@ -175,6 +181,8 @@ impl Stream for RtrListener {
                 *this.backoff = Some(Box::pin(
                     tokio::time::sleep(Duration::from_millis(100))
                 ));
+                // Get polled again so the backoff timer is armed.
+                ctx.waker().wake_by_ref();
                 Poll::Pending
             }
             Poll::Pending => Poll::Pending,
